@@ -16,7 +16,7 @@ WATCHDOG = {"quick": 1200, "thorough": 3300}
 REQUIRED_CLASSES = {t: ["coll:from>to", "coll:from<to", "coll:negative_loads", "coll:range_mean_form", "coll:extra_index_level", "coll:columns_reversed", "coll:further_columns_interleaved",
                         "bins:int", "bins:edges", "bins:interval_index", "bins:single", "bins:irregular", "value_on_edge",
                         "rebin:single_target", "rebin:same_binning", "rebin:finer", "rebin:coarser", "rebin:irregular",
-                        "rebin:int_target", "rebin:integer_counts", "rebin:source_from_range_histogram", "combine:overlapping", "operand:series",
+                        "rebin:int_target", "rebin:integer_counts", "rebin:source_from_range_histogram", "combine:overlapping", "combine:integer_counts_first_then_fractional", "operand:series",
                         "hist2d:int_bins", "hist2d:interval_bins", "hist2d:axis", "rebin:2d_int_target", "rebin:2d_multiindex_target", "combine:2d"]
                     for t in ("quick", "thorough")}
 REQUIRED_MONITORS = ["identities:upper/lower/amplitude/mean/R", "from_to==range_mean", "scale", "shift", "range_histogram:total",
@@ -360,6 +360,10 @@ def _case_combine(ctx, rng):
         hs.append(pd.Series(np.round(rng.uniform(0, 50, len(e) - 1), 1), index=pd.IntervalIndex.from_breaks(e), name="cycles"))
     ctx.tag("combine:overlapping")
     ctx.nontrivial(True)
+    # counts as they come: integer counts of a measured histogram first, fractional counts (re-binned, weighted) later
+    if rng.random() < 0.5:
+        hs[0] = hs[0].round().astype(np.int64)
+        ctx.tag("combine:integer_counts_first_then_fractional")
     comb = combine_histogram(hs, method="sum")
     grand = float(sum(h.sum() for h in hs))
     ctx.check("combine:grand_total", abs(float(comb.sum()) - grand) <= 1e-9 * max(1.0, grand), observed=float(comb.sum()), expected=grand)
